@@ -161,14 +161,61 @@ def _model_doc(d: Dict[str, Any], stats: Dict[str, int], stop, use_re: bool) -> 
     return {'id': d['id'], 'size': d.get('size'), 'elems': [stats.get(f) for f in DEFAULT_ELEMENTS], 'lines': lines}
 
 
-DEFAULT_BPS = list(range(300, 3000, 300))
+_CONSTS: Dict[str, Any] = {}
+
+
+def _consts() -> Dict[str, Any]:
+    """the defaults / literals of the source as the translator reads them with `ast` from the working tree
+    (harness/props/c20_translate.py) — never a hand-written copy; {} when the translator does not recognise
+    the source (the run then reports the translator as a broken obligation)"""
+    if not _CONSTS:
+        from harness.props import c20_translate
+        try:
+            _CONSTS.update(c20_translate.constants())
+        except Exception as e:         # TranslateError: reported by the runner through translate()
+            _CONSTS['error'] = str(e)
+    return _CONSTS
+
+
+def _bin_sizes() -> List[int]:
+    """the bin sizes with which get_doc_stats reaches _init_doc_stats and get_word_cat_stats (read from the
+    source; if that is not possible, the defaults the two functions declare)"""
+    c = _consts()
+    if 'initBinSize' in c and 'wordCatBinSize' in c:
+        return [c['initBinSize'], c['wordCatBinSize']]
+    import inspect
+    import pagexml.analysis.stats as st
+    return [inspect.signature(st._init_doc_stats).parameters['word_length_bin_size'].default,
+            inspect.signature(_ts().get_word_cat_stats).parameters['word_length_bin_size'].default]
+
+
+def _doc_kwargs(inp) -> Dict[str, Any]:
+    """the keyword arguments of the call: what the case does not specify is NOT passed (the default of the real
+    function applies; the model takes the same default from Generated/C20.lean)"""
+    kw: Dict[str, Any] = {'line_width_boundary_points': inp.get('bps'), 'stop_words': inp.get('stop'),
+                          'use_re_word_boundaries': inp.get('re', False)}
+    for key, arg in (('max_len', 'max_word_length'), ('lbw', 'line_bin_width'), ('max_bin', 'max_bin')):
+        if key in inp:
+            kw[arg] = inp[key]
+    return kw
+
+
+def _in_statement(inp) -> bool:
+    """the configurations of the statement: the call `get_doc_stats(docs)` with its defaults always; an explicit
+    max_word_length when it is a positive multiple of the bin size the source uses (other values make the bins of
+    get_word_cat_stats and the columns of _init_doc_stats differ: KeyError, model and code agree); not an
+    explicit line_bin_width of 0 without boundary points (range() raises ValueError)"""
+    if inp.get('bps') is None and inp.get('lbw') == 0:
+        return False
+    if 'max_len' not in inp:
+        return True
+    ml = inp['max_len']
+    return ml > 0 and all(isinstance(b, int) and b > 0 and ml % b == 0 for b in _bin_sizes())
 
 
 def _doc_table(docs, inp) -> Dict[str, List[Any]]:
     import pagexml.analysis.stats as st
-    t = st.get_doc_stats(docs, line_width_boundary_points=inp.get('bps'), stop_words=inp.get('stop'),
-                         max_word_length=inp.get('max_len', 30),
-                         use_re_word_boundaries=inp.get('re', False))
+    t = st.get_doc_stats(docs, **_doc_kwargs(inp))
     out = {}
     for k, v in t.items():
         out[k] = [(x if (x is None or isinstance(x, str)) else int(x)) for x in v]
@@ -179,10 +226,16 @@ def _doc_table(docs, inp) -> Dict[str, List[Any]]:
 # keyness: the real-valued formula, computed independently of numpy
 # ---------------------------------------------------------------------------------------
 
-SMALL = 1e-20
+def _small() -> float:
+    """`_SMALL` of text_stats.py, read from the source with `ast` (no import of the value, no copy)"""
+    c = _consts()
+    if 'smallFloat' in c:
+        return c['smallFloat']
+    return float(_ts()._SMALL)
 
 
 def _g2(a: int, b: int, c: int, d: int) -> float:
+    SMALL = _small()
     n = a + b + c + d
     cells = [(a, Fraction((a + b) * (a + c), n)), (b, Fraction((a + b) * (b + d), n)),
              (c, Fraction((c + d) * (a + c), n)), (d, Fraction((c + d) * (b + d), n))]
@@ -236,7 +289,15 @@ def _rand_counter(rng: random.Random, toks: List[str], big: bool) -> List[List[A
     return [[k, rng.randint(1, hi)] for k in ks]
 
 
+def _gen_bounds():
+    """(default max_word_length, bin size) of the source as the translator reads them: the generator puts words right
+    at these boundaries (30 / 5 only if the source is not recognised)"""
+    c = _consts()
+    return c.get('defaultMaxWordLength', 30), (c.get('wordCatBinSize') or 5)
+
+
 def _rand_doc(rng: random.Random, i: int) -> Dict[str, Any]:
+    ml, b = _gen_bounds()
     kind = rng.choice(['scan', 'scan', 'region', 'page'])
     nreg = rng.choice([0, 1, 1, 2, 3])
     regions = []
@@ -247,7 +308,7 @@ def _rand_doc(rng: random.Random, i: int) -> Dict[str, Any]:
             if r < 0.06:
                 text = ' '.join(rng.choice(WORDS) for _ in range(rng.choice([99, 100, 101, 102, 130])))
             elif r < 0.12:
-                text = rng.choice(['x' * 30, 'y' * 31, 'Supercalifragilisticexpialidocious' * 2, 'z' * 5, 'w' * 6])
+                text = rng.choice(['x' * ml, 'y' * (ml + 1), 'Supercalifragilisticexpialidocious' * 2, 'z' * b, 'w' * (b + 1)])
             elif r < 0.3:
                 text = ' '.join(rng.choice(WORDS) for _ in range(rng.choice([4, 5, 6, 9, 10, 15, 16, 25, 26, 42, 43, 70, 71])))
             else:
@@ -394,6 +455,37 @@ class C20(Check):
             if rng.random() < 0.2:
                 inp['re'] = True
             out.append(Case('docstats', inp, ['random'] + (['re'] if inp.get('re') else [])))
+        # -- defaults left to the real code (model: Generated/C20.lean), line_bin_width / max_bin passed or not ----
+        out.append(Case('docstats', {'docs': [_rand_doc(rng, 0)]}, ['defaults']))
+        one = {'id': 'd0', 'kind': 'scan', 'size': [500, 500], 'regions': [[{'text': 'ab cd', 'w': 260}, {'text': 'x', 'w': 3100}]]}
+        for extra in ({'lbw': 0}, {'lbw': 250, 'max_bin': 1000}, {'lbw': 0, 'bps': [100]}, {'max_bin': 0}, {'lbw': -3},
+                      {'max_len': 0}, {'max_len': 3}):
+            out.append(Case('docstats', dict({'docs': [one]}, **extra), ['corpus', 'defaults']))
+        for i in range(60 if quick else 600):
+            docs = [_rand_doc(rng, j) for j in range(rng.choice([1, 1, 2, 3]))]
+            inp = {'docs': docs}
+            r = rng.random()
+            if r < 0.35:
+                inp['lbw'] = rng.choice([100, 250, 300, 301, 500, 1000, 2999, 3000, 5000, 1, 700, 0, -100])
+            if rng.random() < 0.3:
+                inp['max_bin'] = rng.choice([0, 299, 300, 301, 600, 1000, 3000, 3001, 6000, -5])
+            if rng.random() < 0.08:
+                inp['bps'] = sorted(rng.sample(range(50, 3500, 50), rng.randint(0, 4)))
+            if rng.random() < 0.35:
+                inp['max_len'] = rng.choice([5, 10, 15, 20, 25, 30, 35, 40, 50, 60, 7, 12, 1, 0])
+            if rng.random() < 0.2:
+                inp['stop'] = rng.sample(WORDS, 2)
+            out.append(Case('docstats', inp, ['random', 'defaults']))
+        for _ in range(60 if quick else 600):
+            ws = [rng.choice(WORDS + ['x' * n for n in (4, 5, 6, 9, 10, 11, 24, 25, 26, 29, 30, 31, 35, 40)])
+                  for _ in range(rng.randint(0, 10))]
+            inp = {'words': ws, 'stop': rng.choice([None, ['a'], []])}
+            r = rng.random()
+            if r < 0.3:
+                inp['max_len'] = rng.choice([10, 25, 30, 31, 12])
+            elif r < 0.5:
+                inp['size'] = rng.choice([1, 3, 5, 10, 30, 40])
+            out.append(Case('wordcat', inp, ['random', 'defaults']))
         return out
 
     # ---------------------------------------------------------------- implementation
@@ -437,8 +529,12 @@ class C20(Check):
             return call(f)
         if case.kind == 'wordcat':
             def f():
-                s = ts.get_word_cat_stats(inp['words'], stop_words=inp['stop'], max_word_length=inp['max_len'],
-                                          word_length_bin_size=inp['size'])
+                kw = {}
+                if 'max_len' in inp:
+                    kw['max_word_length'] = inp['max_len']
+                if 'size' in inp:
+                    kw['word_length_bin_size'] = inp['size']
+                s = ts.get_word_cat_stats(inp['words'], stop_words=inp['stop'], **kw)
                 return {k: (None if v is None else int(v)) for k, v in s.items()}
             return call(f)
         if case.kind == 'linewidth':
@@ -487,7 +583,7 @@ class C20(Check):
             stop = inp['stop']
             return [{'p': 'C20', 'op': 'word_cat_stats', 'args': {
                 'words': [_word_json(w, stop) for w in inp['words']], 'use_stop': stop is not None,
-                'max_len': inp['max_len'], 'size': inp['size']}}]
+                'max_len': inp.get('max_len'), 'size': inp.get('size')}}]
         if case.kind == 'linewidth':
             return [{'p': 'C20', 'op': 'line_width', 'args': {'widths': inp['widths'], 'bps': inp['bps']}}]
         if case.kind == 'docstats':
@@ -495,10 +591,10 @@ class C20(Check):
             stop = inp.get('stop')
             mdocs = [_model_doc(d, {k: int(v) for k, v in o.stats.items()}, stop, inp.get('re', False))
                      for d, o in zip(inp['docs'], docs)]
-            bps = inp.get('bps')
+            # `null` = the argument is not passed to the real function: the driver uses the regenerated default
             return [{'p': 'C20', 'op': 'doc_stats', 'args': {
-                'docs': mdocs, 'bps': DEFAULT_BPS if bps is None else bps, 'use_stop': stop is not None,
-                'max_len': inp.get('max_len', 30)}}]
+                'docs': mdocs, 'bps': inp.get('bps'), 'use_stop': stop is not None, 'max_len': inp.get('max_len'),
+                'line_bin_width': inp.get('lbw'), 'max_bin': inp.get('max_bin')}}]
         return []
 
     def _cmp_analyser(self, i: Dict[str, Any], m: Dict[str, Any]) -> Optional[str]:
@@ -745,8 +841,7 @@ class C20(Check):
             if tot != len(inp['widths']):
                 bad('partition-line-width', f'line-width bins sum to {tot} for {len(inp["widths"])} lines')
         elif case.kind == 'docstats':
-            ml = inp.get('max_len', 30)
-            if ml % 5 != 0 or ml <= 0:
+            if not _in_statement(inp):
                 return fs                      # outside the configurations of the statement (see level note)
             if 'err' in out:
                 bad('doc-raises', f'get_doc_stats raised {out["err"]}')
@@ -860,7 +955,7 @@ class C20(Check):
                             for cut in (t[:len(t) // 2], t[len(t) // 2:], t[1:], t[:-1]):
                                 nr = d['regions'][:ri] + [r[:li] + [dict(l, text=cut)] + r[li + 1:]] + d['regions'][ri + 1:]
                                 yield Case('docstats', dict(inp, docs=ds[:di] + [dict(d, regions=nr)] + ds[di + 1:]), case.tags)
-            for k in ('bps', 'stop', 'max_len'):
+            for k in ('bps', 'stop', 'max_len', 'lbw', 'max_bin'):
                 if k in inp:
                     yield Case('docstats', {kk: v for kk, v in inp.items() if kk != k}, case.tags)
         elif case.kind == 'wordcat':
@@ -882,15 +977,21 @@ C20.level_note = (
     'concatenation incl. num_lines and stats (C20_additive_add/_merge), title/non-title, word-length (for word lists without '
     'empty words), words-per-line (against the table regenerated from the module) and line-width partitions, the document '
     'table (success, equal columns, column-wise concatenation except doc_num, |ds| entries per column, element counts, '
-    'doc_num = 1..n) for every list of integer boundary points and every max_word_length that is a positive multiple of 5 '
-    '(C20_cfg_ok + C20_doc_stats_concat); keyness direction '
+    'doc_num = 1..n) for every list of integer boundary points, every bin size s > 0 reaching both _init_doc_stats and '
+    'get_word_cat_stats and every max_word_length that is a positive multiple of s (C20_cfg_ok + C20_doc_stats_concat); '
+    'for the calls of the code (arguments passed or left to the defaults regenerated from the source into '
+    'Generated/C20.lean: max_word_length, line_bin_width, max_bin, the two bin sizes, DEFAULT_ELEMENTS, fields, '
+    'prev_point = 0, _SMALL, the factor 2) C20_cfg_ok_code / C20_cfg_ok_default / C20_doc_stats_code / C20_score_code, '
+    'which use only the relations C20_consts_* (bin sizes agree and are positive, default max_word_length a positive '
+    'multiple, line_bin_width != 0, both width functions start at the same point, _SMALL > 0 and 8*_SMALL <= 1e-9); '
+    'keyness direction '
     'over the integers (more iff a*R > b*T; less otherwise; one entry per token), score: swap invariance for an arbitrary '
     'log function, score >= -8*s for the regularisation constant s >= 0 (s = 0: Gibbs) and positivity of every log argument '
     'with Mathlib\'s real log. NOT proved, sampled with tolerance 1e-9: the floating-point value of the score (numpy log, '
     'summation order) and the float comparison observed > expected (exact for the generated counts < 1e6). The tokenisers '
     '(characters, get_line_words, str.split(\' \'), re.split), str.lower and the str predicates (isalpha, istitle, …) are '
     'parameters of the model: the driver receives their values from the running CPython. max_word_length values that are not '
-    'positive multiples of 5 make get_doc_stats raise KeyError (model and code agree; outside the statement\'s configurations, '
+    'positive multiples of the bin size make get_doc_stats raise KeyError (model and code agree; outside the statement\'s configurations, '
     'not judged by the oracle). Known finding: use_re_word_boundaries=True still yields empty words for runs of blanks.')
 C20.assumptions = [
     'collections.Counter semantics (update, +=, __add__ keeping positive counts, missing key = 0) mirrored by hand as an '
